@@ -455,6 +455,9 @@ type c18 struct {
 	rng *RNG
 	sh  *shEnv
 	nsh int
+	// plain names that were never configured on the object a history builds from (the caller wrote them into
+	// its OWN maps only): runBuilt probes them after the configured ones; they must be unset in the shell
+	ghosts []string
 }
 
 func (c *c18) shCase(script string, list []kv, supported bool, res shResult) {
@@ -546,6 +549,9 @@ func (c *c18) runBuilt(kind string, e commservices.Environments, m map[string]st
 	var b buildObs
 	entry := ""
 	probeKeys := keys // the probes print the variables in sorted order (for sshsb they are the entrypoint)
+	if len(c.ghosts) > 0 {
+		probeKeys = append(append([]string{}, keys...), c.ghosts...)
+	}
 	if kind == "ssh" {
 		entry = probeScript(probeKeys)
 		b = buildSsh(e, entry)
@@ -602,6 +608,12 @@ func (c *c18) runBuilt(kind string, e commservices.Environments, m map[string]st
 		o.Stat("value_" + c18ValueClass(e.V))
 	}
 	good := c.oracle(kind, sorted, res, desc)
+	for j, g := range c.ghosts {
+		if good && res.Kind == "ran" && len(res.Values[len(keys)+j]) > 0 {
+			o.Fail("configured_only", fmt.Sprintf("%s: the start-up script sets %s=%q, a variable that was never configured on this Environments object (the caller wrote it into a map of its own only)", kind, g, res.Values[len(keys)+j]), "aliasing", desc)
+			good = false
+		}
+	}
 	if c.sh.bash != "" && !c.sh.shIsBash { // the same script through bash as well (L2 only)
 		bres := c.sh.runWith(c.sh.bash, []byte(full), len(probeKeys))
 		c.nsh++
@@ -742,7 +754,7 @@ func (c *c18) randomValue() string {
 }
 
 func runC18(o *Out, rng *RNG, tier string, replay string) {
-	o.Imports = "From GC Require Import Common.Base Model.Shell Corr.C18."
+	o.Imports = "From GC Require Import Common.Base Model.Shell Proofs.C18More Corr.C18."
 	o.CaseType = "case"
 	o.CheckFn = "check"
 	o.ShardSize = 20
@@ -761,6 +773,7 @@ func runC18(o *Out, rng *RNG, tier string, replay string) {
 		"(7) long values (2^k and 2^k+1 bytes for 256..65536, 100 000: position-coded, quotes only, first quote + command after n quote-free bytes, random bytes) and 700 variables in one environment (scripts over 1500 bytes: real shells only). " +
 		"(8) dcmd.Engine.Run with a stand-in container program that is /bin/sh: the start-up script as the engine feeds it, followed by the task's input. " +
 		"(9) names the shell reserves (OPTIND, RANDOM, UID ...): recorded only (extra.reserved_names). " +
+		"(10) the maps that cross the API are the caller's: histories in which the harness KEEPS every map it passed to SetAll and every map All() returned and writes to them later (every value changed to a command-running one, entries deleted, a plain name added, a refused name that is a command added), passes one map to two objects and writes to each object on its own - SetAll on a fresh object, on one holding fewer / more variables than the map, after a refused call, with an empty map, the same map twice; All() once and twice; maps of 0..40 variables; directly and through EnvironmentsUnit.Envs(scope); after every step All() must equal what the accepted calls on that object configured (L2 configured_only, L1 CHist vs env_run), every build is run by the real shells against that reference and the names the caller wrote into its own maps only must be unset in the shell. " +
 		"Non-trivial: at least one variable / a key that is not empty; distinct by builder + map + certificate, by script bytes, by key."
 	c := &c18{o: o, rng: rng, sh: newShEnv()}
 	defer c.sh.close()
